@@ -466,6 +466,66 @@ def derived_objects(ctx, db, aff, cfgs, r, n):
             ctx.count("derived: route raised %s" % type(e).__name__)
 
 
+# ----------------------------------------------------------------------------- override histories
+def override_histories(ctx, r, n):
+    """Limits are (re)registered with override=True *after* objects of the category - named explicitly or only
+    through a unit whose default category it is - have been built and validated: what is built afterwards, by
+    any route, is judged by the limits registered now."""
+    import numpy as np
+    from barril.units import Array, FixedArray, FractionScalar, ObtainQuantity, Scalar
+
+    for h in range(n):
+        db = table.build("posc")
+        with table.pushed(db):
+            qt, units = r.choice([("length", ["m", "cm", "km", "ft"]), ("time", ["s", "min", "h"]), ("mass", ["kg", "g", "lbm"]), ("temperature", ["K", "degC", "degF"])])
+            c = qt  # the default category of these units
+            steps = []
+            for round_ in range(r.randint(1, 3)):
+                # objects of the category before the (next) override, validated or not
+                for _ in range(r.randint(1, 4)):
+                    u = r.choice(units)
+                    how = r.choice(["Scalar(x,u)", "Scalar(c,x,u)", "Array([x],u)", "ObtainQuantity(u)", "FractionScalar(x,u)"])
+                    o = {"Scalar(x,u)": lambda: Scalar(1.0, u), "Scalar(c,x,u)": lambda: Scalar(c, 1.0, u), "Array([x],u)": lambda: Array([1.0], u), "ObtainQuantity(u)": lambda: ObtainQuantity(u),
+                         "FractionScalar(x,u)": lambda: FractionScalar(1.0, u)}[how]()  # fmt: skip
+                    if hasattr(o, "IsValid") and r.random() < 0.7:
+                        o.IsValid()
+                    steps.append(["build", how, u])
+                du = r.choice(units)
+                mn, mx = r.choice([(0.0, None), (None, 10.0), (1.0, 100.0), (-5.0, 5.0), (None, None), (50.0, 60.0)])
+                kw = {"override": True, "default_unit": du, "min_value": mn, "max_value": mx}
+                if mn is not None and mx is not None:
+                    kw["default_value"] = (mn + mx) / 2
+                db.AddCategory(c, qt, **kw)
+                steps.append(["AddCategory(override)", c, {k: v for k, v in kw.items() if k != "override"}])
+                cfg = {"min": mn, "max": mx, "min_excl": False, "max_excl": False, "du": du, "qt": qt}
+                for x in (-1.0, 0.5, 3.0, 55.0, 1000.0):
+                    for u in units:
+                        conv_x = db.Convert(qt, u, du, x) if u != du else x
+                        want = broken_limit(conv_x, cfg) is None
+                        near = any(l is not None and abs(conv_x - l) <= 1e-9 * max(1.0, abs(l)) for l in (mn, mx))
+                        if near and u != du:
+                            continue
+                        for how, mk in (
+                            ("Scalar(x,u)", lambda: Scalar(x, u)), ("Scalar(c,x,u)", lambda: Scalar(c, x, u)), ("Scalar(ObtainQuantity(u),x)", lambda: Scalar(ObtainQuantity(u), x)),
+                            ("Array([x],u)", lambda: Array([x], u)), ("Array(c,nd,u)", lambda: Array(c, np.array([x, x]), u)), ("FixedArray(2,[x,x],u)", lambda: FixedArray(2, [x, x], u)),
+                            ("FractionScalar(x,u)", lambda: FractionScalar(x, u)), ("Scalar(c,x,u).CreateCopy()", lambda: Scalar(c, x, u).CreateCopy()),
+                        ):  # fmt: skip
+                            ctx.ev()
+                            case = {"history": steps[-8:], "route": how, "unit": u, "value": x, "limits": [mn, mx], "default_unit": du}
+                            try:
+                                o = mk()
+                                got = o.IsValid()
+                            except Exception as e:
+                                ctx.violation("override:route-raised:%s:%s" % (how, type(e).__name__), dict(case, error=str(e)[:160]), replay=None)
+                                continue
+                            if o.GetCategory() != c:
+                                continue
+                            if got != want:
+                                ctx.violation("override:verdict-follows-an-earlier-definition-of-the-category:%s" % how, dict(case, is_valid=got, expected=want, converted=conv_x), replay=None)
+                ctx.nt(("override", qt, du, mn, mx, round_))
+        ctx.count("override histories")
+
+
 # ------------------------------------------------------------------------------- AddCategory
 def add_category_tuples(ctx, db, aff, r, n):
     from barril.units import Array, FixedArray, FractionScalar, Scalar
@@ -565,7 +625,7 @@ def run(ctx):
         "private database with one category per (quantity type/default unit of %d) x (limit pair of %d) x exclusivity flags; per category x unit: hostile amounts "
         "(exact boundaries converted into the unit, +-1 ulp, +-1e-9 relative, +-1, interior, exterior, +-inf, NaN) through Scalar / FractionScalar / CheckValueForCategory / validator messages; "
         "arrays of length 0..5 drawn from those amounts (NaN first/last/everywhere) in every permutation (<= 4 elements) x {list, tuple, ndarray, FixedArray} + nested tuples, verdict "
-        "repeated twice; objects reached through 18 copy/conversion/arithmetic/pickle routes (source validated first or not) against a freshly built object with the same floats; random AddCategory keyword tuples. distinct = (category, unit, verdict class, shape)" % (len(TYPES), len(LIMITS))
+        "repeated twice; objects reached through 18 copy/conversion/arithmetic/pickle routes (source validated first or not) against a freshly built object with the same floats; random AddCategory keyword tuples; override histories (objects built and validated, then the category re-registered with other limits / default unit, then every route judged by the limits registered now). distinct = (category, unit, verdict class, shape)" % (len(TYPES), len(LIMITS))
     )
     ctx.assumptions = [
         "reference conversion is UnitDatabase.Convert on floats (C01/C02 vouch for it); amounts within the float noise of a limit (but not equal to it) may get either verdict, consistently",
@@ -586,6 +646,7 @@ def run(ctx):
         if ctx.shard == 0:
             ctx.sample({"config": cfgs[9], "unit": "cm", "amounts": ["Convert(m->cm, 1.0)", "+1 ulp", "-1 ulp", "nan", "inf"], "array": "every permutation x list/tuple/ndarray/FixedArray"})
             ctx.sample({"AddCategory": {"quantity_type": "length", "valid_units": ["cm", "km"], "default_unit": "m"}, "expected": "refused, or a default unit among the valid units"})
+    override_histories(ctx, ctx.rng("override"), 6 if ctx.tier == "quick" else 60)
     ctx.inconclusive_if(probe.COUNTS["Quantity.CheckValue"] == 0 or probe.BOUNDARY["UnitDatabase.AddCategory"] == 0, "deciding wrappers never reached")
     ctx.inconclusive_if(ctx.counters.get("AddCategory accepted", 0) < 20, "fewer than 20 accepted AddCategory calls")
 
